@@ -25,7 +25,7 @@ def tied_rows(m, dense):
     return out
 
 class C18(Prop):
-    translators = ['complete', 'validators', 'consistent', 'datagen', 'ordinal', 'strictify']   # regenerated from the source on every run (harness/translate.py)
+    translators = ['complete', 'validators', 'consistent', 'datagen', 'ordinal', 'strictify', 'wrappers']   # regenerated from the source on every run (harness/translate.py)
     layouts = True
     pid = "C18"
     sources = ["socialchoicekit/profile_utils.py", "socialchoicekit/data_generation.py", "socialchoicekit/utils.py"]
